@@ -59,7 +59,7 @@ theorem keepout_const (i : Inst) {as : List Nat} {s : State} (h : Run env i (env
 /-- MDPP never offers a probing port, whatever the instance mask says. -/
 theorem mdpp_probe_never_offered (i : Inst) (hm : i.multi = true) {as : List Nat} {s : State}
     (h : Run env i (env.reset i) as s) (j : Nat) (hp : i.probe j = true) : env.mask i s j = false := by
-  rw [mask_eq_history i h j]; simp [allowed0, hm, hp]
+  rw [mask_eq_history i h j]; simp [allowed0, reset, Params.mdppResetProbeNegated, hm, hp]
 
 /-- MDPP needs no instance contract: `_reset` clears the probing ports itself. -/
 theorem mdpp_quota (i : Inst) (hm : i.multi = true) (hq : 1 ≤ i.quota)
